@@ -43,7 +43,8 @@ def units(tier, seed):
     idxs = base_grammars()
     idxs = [g for k, g in enumerate(idxs) if k % pl["win"][1] == pl["win"][0]
             % pl["win"][1]]
-    return [dict(idx=idxs[i:i + 10]) for i in range(0, len(idxs), 10)]
+    return [dict(special=i) for i in range(len(SPECIAL))] + \
+        [dict(idx=idxs[i:i + 10]) for i in range(0, len(idxs), 10)]
 
 
 def worker_init():
@@ -220,7 +221,104 @@ def observe(kind, p, s, mon):
     return (o.kind,)
 
 
+# grammar-wide special rules (KEYWORD, LAYOUT) of the root file together with
+# rules and string terminals that live only in imported files:
+# (name, files, flattened text, input alphabet, longest input)
+SPECIAL = [
+    ("keyword-root/inline-in-import",
+     {"root.pg": "import 'f1.pg';\nS: f1.St+;\nterminals\nKEYWORD: /[a-z]+/;\n",
+      "f1.pg": 'St: "ab" id | id;\nterminals\nid: /[a-z]+/;\n'},
+     'S: St+;\nSt: "ab" id | id;\nterminals\nKEYWORD: /[a-z]+/;\n'
+     'id: /[a-z]+/;\n', "ab ", 6),
+    ("keyword-root/declared-in-import",
+     {"root.pg": "import 'f1.pg' as m;\nS: m.St+;\nterminals\n"
+                 "KEYWORD: /[a-z]+/;\n",
+      "f1.pg": 'St: K id | id;\nterminals\nK: "ab";\nid: /[a-z]+/;\n'},
+     'S: St+;\nSt: K id | id;\nterminals\nKEYWORD: /[a-z]+/;\nK: "ab";\n'
+     'id: /[a-z]+/;\n', "ab ", 6),
+    ("keyword-root/two-levels",
+     {"root.pg": "import 'f1.pg';\nS: f1.St+;\nterminals\nKEYWORD: /[a-z]+/;\n",
+      "f1.pg": "import 'f2.pg';\nSt: f2.Kw id | id;\nterminals\n"
+               "id: /[a-z]+/;\n",
+      "f2.pg": 'Kw: "ab" | "b";\n'},
+     'S: St+;\nSt: Kw id | id;\nKw: "ab" | "b";\nterminals\n'
+     'KEYWORD: /[a-z]+/;\nid: /[a-z]+/;\n', "ab ", 6),
+    ("keyword-root/also-used-in-root",
+     {"root.pg": "import 'f1.pg';\nS: f1.St+ | \"b\" \"ab\";\nterminals\n"
+                 "KEYWORD: /[a-z]+/;\n",
+      "f1.pg": 'St: "ab" id | id;\nterminals\nid: /[a-z]+/;\n'},
+     'S: St+ | "b" "ab";\nSt: "ab" id | id;\nterminals\nKEYWORD: /[a-z]+/;\n'
+     'id: /[a-z]+/;\n', "ab ", 6),
+    ("layout-root/rules-in-import",
+     {"root.pg": "import 'f1.pg';\nS: f1.St+;\nLAYOUT: Sp | EMPTY;\n"
+                 "terminals\nSp: /[_ ]+/;\n",
+      "f1.pg": 'St: "a" "b" | "b";\n'},
+     'S: St+;\nSt: "a" "b" | "b";\nLAYOUT: Sp | EMPTY;\nterminals\n'
+     'Sp: /[_ ]+/;\n', "ab_", 6),
+]
+
+
+def special_unit(u):
+    name, files, ftext, alpha, nmax = SPECIAL[u["special"]]
+    mon = Monitor()
+    judge = Judge(PROP, KNOWN)
+    st = collections.Counter()
+    inputs = spaces.strings(alpha, nmax)
+    case = {"files": files, "flattened": ftext, "variant": name}
+    d = tempfile.mkdtemp(prefix="pgmc-c20-")
+    try:
+        for nme, text in files.items():
+            open(os.path.join(d, nme), "w").write(text)
+        for kind in ("lr", "glr"):
+            ps = []
+            for src in ("modular", "flat"):
+                try:
+                    with quiet():
+                        g = Grammar.from_file(os.path.join(d, "root.pg")) \
+                            if src == "modular" else grammar_from_string(ftext)
+                    ps.append(build(kind, g, mon, tag=(name, src, kind)))
+                except BudgetExceeded:
+                    ps.append("budget")
+                except Exception as e:     # noqa: BLE001
+                    ps.append(type(e).__name__)
+                for f_ in os.listdir(d):
+                    if f_.endswith((".pgc", ".tmp")):
+                        os.remove(os.path.join(d, f_))
+            if any(isinstance(p, str) for p in ps):
+                if [p if isinstance(p, str) else "ok" for p in ps][0] != \
+                        [p if isinstance(p, str) else "ok" for p in ps][1]:
+                    judge.deviation("MODULAR", f"special/build/{kind}", name, "",
+                                    "construction outcome differs from the "
+                                    "flattened grammar",
+                                    {"modular": str(ps[0])[:40],
+                                     "flat": str(ps[1])[:40]}, case)
+                continue
+            for s_ in inputs:
+                a = observe(kind, ps[0], s_, mon)
+                b = observe(kind, ps[1], s_, mon)
+                st["evaluations"] += 1
+                if b[0] == "ok":
+                    st["nontrivial"] += 1
+                if a != b:
+                    judge.deviation(
+                        "MODULAR", f"special/parse/{kind}", name, s_,
+                        "modular grammar and flattened grammar disagree "
+                        "(grammar-wide KEYWORD / LAYOUT rule of the root file)",
+                        {"modular": str(a)[:200], "flat": str(b)[:200]},
+                        dict(case, input=s_, parser=kind))
+    finally:
+        shutil.rmtree(d, ignore_errors=True)
+    st["variants"] += 1
+    r = judge.result()
+    r.update(st)
+    r.update(states=len(mon.states), transitions=mon.transitions,
+             traces=mon.traces, samples=[{"special": name, "files": files}])
+    return r
+
+
 def run_unit(u):
+    if "special" in u:
+        return special_unit(u)
     gs = spaces.grammars(**SPACE)
     mon = Monitor()
     judge = Judge(PROP, KNOWN)
